@@ -327,19 +327,35 @@ func (s *Solver) OneShot(pc []*Term, extra []*Term, vars []*Term, timeoutS int) 
 	if err != nil {
 		return Unknown
 	}
-	defer os.Remove(f.Name())
+	if os.Getenv("VP_KEEPONESHOT") == "" {
+		defer os.Remove(f.Name())
+	}
 	f.WriteString(sb.String())
 	f.Close()
-	bin := "z3-new"
-	if s.name == "cvc5" {
-		bin = "z3-new"
-	}
 	t0 := time.Now()
-	out, _ := exec.Command(bin, fmt.Sprintf("-T:%d", timeoutS), f.Name()).CombinedOutput()
+	var txt, first string
+	if !hasFP {
+		// pure bit-vector queries: cvc5's bit-blaster decides the sum/extension equalities of the
+		// charstring templates about ten times faster than z3; z3 stays the second opinion
+		out, _ := exec.Command("cvc5", "--produce-models", fmt.Sprintf("--tlimit=%d", timeoutS*1000/3), f.Name()).Output()
+		txt = string(out)
+		first = strings.TrimSpace(strings.SplitN(txt, "\n", 2)[0])
+	}
+	if first != "sat" && first != "unsat" {
+		out, _ := exec.Command("z3-new", fmt.Sprintf("-T:%d", timeoutS), f.Name()).CombinedOutput()
+		txt = string(out)
+		first = strings.TrimSpace(strings.SplitN(txt, "\n", 2)[0])
+	}
+	if hasFP && first != "sat" && first != "unsat" {
+		// second opinion for floating-point queries (symfpu bit-blasting decides some divisions
+		// by constants that z3 does not)
+		out, _ := exec.Command("cvc5", "--produce-models", fmt.Sprintf("--tlimit=%d", timeoutS*1000*2/3), f.Name()).Output()
+		txt = string(out)
+		first = strings.TrimSpace(strings.SplitN(txt, "\n", 2)[0])
+	}
+	// an (error line ahead of the verdict makes the verdict the second line: not accepted
 	s.Time += time.Since(t0)
 	s.OneShots++
-	txt := string(out)
-	first := strings.TrimSpace(strings.SplitN(txt, "\n", 2)[0])
 	switch first {
 	case "unsat":
 		s.Queries.Unsat++
